@@ -83,7 +83,7 @@ def pattern_from_host(rng, host: onnx.ModelProto):
         fg = onnx.GraphProto()
         fg.node.extend(f.node)
         graphs.append(fg)
-    ok_ops = set(L.UNARY + L.COMM + L.NONCOMM + ["Transpose", "Two"])
+    ok_ops = set(L.UNARY + L.COMM + L.NONCOMM + ["Transpose", "Two", "h"])
     cands = [(g, n) for g in graphs for n in g.node if n.op_type in ok_ops]
     if not cands:
         return None
@@ -236,7 +236,7 @@ def make_case(rng, size_hi: int, allow_clash: bool) -> dict:
     with_funcs = rng.random() < 0.45
     with_cond = rng.random() < 0.55
     nrules = rng.choice([1, 1, 2])
-    extra = ["one"] if rng.random() < 0.1 else []
+    extra = (["one"] + (["one_1", "one_2"] if rng.random() < 0.5 else [])) if rng.random() < 0.12 else []
     host, hist = L.gen_host(rng, rng.randint(2, size_hi), with_funcs, with_cond, extra)
     rules = [gen_rule(rng, i + 1, with_funcs, allow_clash, host) for i in range(nrules)]
     return {"rules": rules, "host": host.SerializeToString().hex(), "with_cond": with_cond, "with_funcs": with_funcs, "hist": hist}
@@ -380,6 +380,36 @@ def corpus() -> list[dict]:
     out.append({"with_cond": False, "rules": [dict(base, name="r1", family="asfn", asfn=True, pnodes=[("Relu", "", [("v", 0)], 1, [])], root=0,
                 pouts=[("n", 0, 0)], tnodes=[("NR", "local2", None, [("v", 0)], 1, [])], touts=[("n", 0, 0)])],
                 "host": host([N("f", ["x"], ["r"], domain="local"), N("Abs", ["r"], ["z"])], ["x"], ["z"], funcs=[fproto], local=True)})
+    # directed (no finding): a match inside a model-local function that uses a domain (`aux`) the main graph does not
+    # import; the extracted function must import it from the enclosing function's own imports
+    hproto = helper.make_function("aux", "h", ["a"], ["b"], [N("Abs", ["a"], ["b"])], [helper.make_opsetid("", 18)])
+    f2 = helper.make_function("local", "f", ["a"], ["b"], [N("h", ["a"], ["t"], domain="aux"), N("Relu", ["t"], ["u"]), N("Neg", ["u"], ["b"])],
+                              [helper.make_opsetid("", 18), helper.make_opsetid("aux", 1)])
+    out.append({"with_cond": False, "rules": [dict(base, name="r1", family="asfn", asfn=True,
+                pnodes=[("h", "aux", [("v", 0)], 1, []), ("Relu", "", [("n", 0, 0)], 1, [])], root=1, pouts=[("n", 1, 0)],
+                tnodes=[("NR", "local2", None, [("v", 0)], 1, [])], touts=[("n", 0, 0)])],
+                "host": host([N("f", ["x"], ["r"], domain="local"), N("Abs", ["r"], ["z"])], ["x"], ["z"], funcs=[f2, hproto], local=True)})
+    # directed (no finding): a rule that brings a new domain fires only inside an If body; the main graph must import it
+    tb = helper.make_graph([N("Neg", ["x"], ["n"]), N("Relu", ["n"], ["t"])], "tb", [], [L.VT("t")])
+    eb = helper.make_graph([N("Abs", ["x"], ["e"])], "eb", [], [L.VT("e")])
+    gi = helper.make_graph([N("If", ["c"], ["z"], then_branch=tb, else_branch=eb)], "main",
+                           [L.VT("x"), helper.make_tensor_value_info("c", onnx.TensorProto.BOOL, [])], [L.VT("z")])
+    out.append({"with_cond": True, "rules": [dict(base, name="r1", family="asfn", asfn=True,
+                pnodes=[("Neg", "", [("v", 0)], 1, []), ("Relu", "", [("n", 0, 0)], 1, [])], root=1, pouts=[("n", 1, 0)],
+                tnodes=[("NR", "local2", None, [("v", 0)], 1, [])], touts=[("n", 0, 0)])],
+                "host": helper.make_model(gi, opset_imports=[helper.make_opsetid("", 18)], ir_version=10).SerializeToString().hex()})
+    # directed (no finding): the host already holds `one`, `one_1`, `one_2`; a rule naming its initializer `one` fires twice
+    i3 = [onnx.numpy_helper.from_array(L.INIT_VALUES.get(nm, L.ONE) * k, nm) for k, nm in enumerate(["one", "one_1", "one_2"], 2)]
+    out.append({"with_cond": False, "rules": [dict(base, name="r1", family="mulone", pnodes=[("Relu", "", [("v", 0)], 1, [])], root=0,
+                pouts=[("n", 0, 0)], inits=[("one", L.init_tok_for("one"))], tnodes=mul_one("Relu"), touts=[("n", 1, 0)])],
+                "host": host([N("Add", ["x", "one"], ["p"]), N("Add", ["p", "one_1"], ["q"]), N("Add", ["q", "one_2"], ["s"]),
+                              N("Relu", ["s"], ["a"]), N("Neg", ["a"], ["b"]), N("Relu", ["b"], ["z"])], ["x"], ["z"], inits=i3)})
+    # same with a gap: the host holds `one` and `one_3` only (a suffix derived from a count instead of a search collides)
+    i2 = [onnx.numpy_helper.from_array(L.ONE * k, nm) for k, nm in enumerate(["one", "one_3"], 2)]
+    out.append({"with_cond": False, "rules": [dict(base, name="r1", family="mulone", pnodes=[("Relu", "", [("v", 0)], 1, [])], root=0,
+                pouts=[("n", 0, 0)], inits=[("one", L.init_tok_for("one"))], tnodes=mul_one("Relu"), touts=[("n", 1, 0)])],
+                "host": host([N("Add", ["x", "one"], ["p"]), N("Add", ["p", "one_3"], ["q"]),
+                              N("Relu", ["q"], ["a"]), N("Neg", ["a"], ["b"]), N("Relu", ["b"], ["z"])], ["x"], ["z"], inits=i2)})
     # C07-D6: a pattern variable bound to an interior matched value: graph.remove(safe=True) raises
     out.append({"id": "C07-D6", "with_cond": False, "rules": [dict(base, name="r1", family="reemit",
                 pnodes=[("Abs", "", [("v", 1)], 1, []), ("Sub", "", [("v", 0), ("n", 0, 0)], 1, [])], root=1, pouts=[("n", 1, 0)],
